@@ -15,6 +15,7 @@
 package server
 
 import (
+	"fmt"
 	"sort"
 	"strconv"
 	"time"
@@ -117,6 +118,10 @@ func (server *Server) Rename(conn *redis.Conn, key string, newkey string, opt re
 		return nil, err
 	}
 	if opt.NX {
+		// A missing source key is an error even when the new key exists.
+		if _, ok := db.GetRecord(key); !ok {
+			return nil, fmt.Errorf("%w: %s", ErrNotFound, key)
+		}
 		if _, ok := db.GetRecord(newkey); ok {
 			return redis.NewIntegerMessage(0), nil
 		}
